@@ -102,7 +102,32 @@ def pieces_positions(text, method, args, kwargs):
     raise ValueError(method)
 
 
+def run_control_text(ctx, case):
+    """text holding ESC / U+009B (control characters like any other as far as str methods are
+    concerned): a delegated method's result is the str method's result, not that text parsed as
+    markup. Judged on the result's text and length only (the cell observer is for text without
+    escape introducers)."""
+    spec, method, args = case["spec"], case["method"], tuple(case.get("args", ()))
+    text = "".join(t for t, _ in spec)
+    f = obs.build(spec)
+    if f.copy().s != text:
+        return          # construction itself read an escape sequence in a run's text: not this check's subject
+    try:
+        ref = getattr(text, method)(*args)
+    except Exception:
+        return
+    try:
+        r = getattr(f, method)(*args)
+        got = [r.s, len(r)] if hasattr(r, "s") else r
+    except Exception as ex:  # noqa
+        got = repr(ex)
+    want = [ref, len(ref)] if isinstance(ref, str) else ref
+    ctx.judge(got == want, case, ("C15", "control", repr(case)), "C15:text-result-parsed-as-markup", want, got)
+
+
 def run_case(ctx, case):
+    if case.get("kind") == "control-text":
+        return run_control_text(ctx, case)
     if case.get("method") == "join" and "sep" in case:
         return run_join(ctx, case)
     try:
@@ -309,6 +334,13 @@ def run(ctx):
                 for m, a, kw in calls_for(text):
                     run_case(ctx, {"spec": spec, "method": m, "args": list(a), "kwargs": kw})
             ctx.count("texts_enumerated")
+    if ctx.shard[0] == 0:
+        for spec in ([["caf\x9b", {}], [" au lait", {"bold": True}]], [["\x1b", {"fg": 31}], ["[1mA ", {"fg": 31}]],
+                     [["a\x9b1", {"fg": 34}], ["m", {"fg": 34}]]):
+            for m, a in (("upper", ()), ("strip", ()), ("center", (12,)), ("replace", ("a", "b")), ("lower", ()),
+                         ("zfill", (12,)), ("title", ())):
+                run_case(ctx, {"kind": "control-text", "spec": spec, "method": m, "args": list(a)})
+                ctx.count("control_text_calls")
     ctx.exhaustive = True
     ctx.notes["max_length_enumerated"] = maxlen
     common = [{}, {"fg": 31}, {"bold": True, "bg": 44}]
